@@ -1,0 +1,208 @@
+//go:build verif
+
+package libinjection
+
+import "unsafe"
+
+// Read-only accessors for the verification harness under /verif.
+// Compiled only with -tags verif; nothing here is reachable from the public API.
+
+// VerifSQLTok is one scan step of the SQL tokenizer.
+type VerifSQLTok struct {
+	Before   int // scan offset before the step
+	After    int // scan offset after the step
+	Category byte
+	Pos      int
+	Len      int
+	Count    int
+	StrOpen  byte
+	StrClose byte
+	Val      string
+}
+
+// VerifSQLStats are the per-pass counters of the scanner state.
+type VerifSQLStats struct {
+	DDX    int
+	Hash   int
+	Folds  int
+	Tokens int
+	Pos    int
+}
+
+func verifTok(t *sqliToken) VerifSQLTok {
+	return VerifSQLTok{Category: t.category, Pos: t.pos, Len: t.len, Count: t.count,
+		StrOpen: t.strOpen, StrClose: t.strClose, Val: t.val}
+}
+
+func verifStats(s *sqliState) VerifSQLStats {
+	return VerifSQLStats{DDX: s.statsCommentDDX, Hash: s.statsCommentHash, Folds: s.statsFolds, Tokens: s.statsTokens, Pos: s.pos}
+}
+
+// VerifSQLTokens runs tokenize() to exhaustion on a fresh state. capped reports that the
+// step cap (len(input)+2) was hit before the tokenizer said it was done.
+func VerifSQLTokens(input string, flags int) (toks []VerifSQLTok, st VerifSQLStats, capped bool) {
+	state := new(sqliState)
+	sqliInit(state, input, flags)
+	limit := len(input) + 2
+	for i := 0; ; i++ {
+		if i >= limit {
+			capped = true
+			break
+		}
+		before := state.pos
+		if !state.tokenize() {
+			break
+		}
+		t := verifTok(state.current)
+		t.Before = before
+		t.After = state.pos
+		toks = append(toks, t)
+	}
+	return toks, verifStats(state), capped
+}
+
+// VerifSQLFold runs fold() on a fresh state.
+func VerifSQLFold(input string, flags int) (toks []VerifSQLTok, n int, st VerifSQLStats) {
+	state := new(sqliState)
+	sqliInit(state, input, flags)
+	n = state.fold()
+	for i := 0; i < n && i < len(state.tokenVec); i++ {
+		toks = append(toks, verifTok(&state.tokenVec[i]))
+	}
+	return toks, n, verifStats(state)
+}
+
+// VerifSQLCtx is the outcome of one parsing context.
+type VerifSQLCtx struct {
+	Fingerprint string
+	Blacklisted bool
+	Verdict     bool
+	Stats       VerifSQLStats
+	Toks        []VerifSQLTok
+}
+
+func verifCtx(state *sqliState, flags int) VerifSQLCtx {
+	var r VerifSQLCtx
+	r.Fingerprint = state.sqliFingerprint(flags)
+	for i := 0; i < len(r.Fingerprint) && i < len(state.tokenVec); i++ {
+		r.Toks = append(r.Toks, verifTok(&state.tokenVec[i]))
+	}
+	r.Stats = verifStats(state)
+	r.Blacklisted = state.blacklist()
+	r.Verdict = state.checkFingerprint()
+	return r
+}
+
+// VerifSQLContext evaluates one parsing context the way check() does, on a fresh state.
+func VerifSQLContext(input string, flags int) VerifSQLCtx {
+	state := new(sqliState)
+	sqliInit(state, input, 0)
+	return verifCtx(state, flags)
+}
+
+// VerifSQLContextSeq evaluates several contexts in order on ONE reused state object.
+func VerifSQLContextSeq(input string, flags []int) []VerifSQLCtx {
+	state := new(sqliState)
+	sqliInit(state, input, 0)
+	out := make([]VerifSQLCtx, 0, len(flags))
+	for _, f := range flags {
+		out = append(out, verifCtx(state, f))
+	}
+	return out
+}
+
+// VerifLookup is the real word look-up path.
+func VerifLookup(word string) byte {
+	state := new(sqliState)
+	sqliInit(state, "", 0)
+	return state.lookupWord(sqliLookupWord, word)
+}
+
+// VerifBlacklisted is the real fingerprint blacklist test.
+func VerifBlacklisted(fp string) bool {
+	state := new(sqliState)
+	sqliInit(state, "", 0)
+	state.fingerprint = fp
+	return state.blacklist()
+}
+
+// VerifSQLKeywords returns a copy of the keyword/fingerprint table.
+func VerifSQLKeywords() map[string]byte {
+	m := make(map[string]byte, len(sqlKeywords))
+	for k, v := range sqlKeywords {
+		m[k] = v
+	}
+	return m
+}
+
+// VerifSQLFlags returns the flag constants (none, single, double, ansi, mysql).
+func VerifSQLFlags() [5]int {
+	return [5]int{sqliFlagQuoteNone, sqliFlagQuoteSingle, sqliFlagQuoteDouble, sqliFlagSQLAnsi, sqliFlagSQLMysql}
+}
+
+// VerifByteWhite exposes the SQL whitespace predicate.
+func VerifByteWhite(ch byte) bool { return isByteWhite(ch) }
+
+// VerifH5Tok is one token of the HTML5 tokenizer.
+type VerifH5Tok struct {
+	Type     int
+	Off      int // offset of the token start inside the input
+	Len      int
+	StartLen int // len(tokenStart): bytes available from Off
+	PosAfter int // scan offset after the step
+}
+
+func verifStrData(s string) uintptr {
+	return (*[2]uintptr)(unsafe.Pointer(&s))[0]
+}
+
+// VerifH5Tokens runs the tokenizer from the given start context. capped reports that the
+// step cap (len(input)+2) was hit.
+func VerifH5Tokens(input string, ctx int) (toks []VerifH5Tok, capped bool) {
+	h := new(h5State)
+	h.init(input, ctx)
+	limit := len(input) + 2
+	for i := 0; ; i++ {
+		if i >= limit {
+			capped = true
+			break
+		}
+		if !h.next() {
+			break
+		}
+		off := len(input) - len(h.tokenStart)
+		if len(h.tokenStart) > 0 && len(input) > 0 {
+			off = int(verifStrData(h.tokenStart) - verifStrData(h.s))
+		}
+		toks = append(toks, VerifH5Tok{Type: h.tokenType, Off: off, Len: h.tokenLen, StartLen: len(h.tokenStart), PosAfter: h.pos})
+	}
+	return toks, capped
+}
+
+// VerifXSSContext is the per-context XSS verdict.
+func VerifXSSContext(input string, ctx int) bool { return isXSS(input, ctx) }
+
+// VerifBlackTag, VerifBlackAttr, VerifBlackURL, VerifDecode expose the classifier predicates.
+func VerifBlackTag(s string) bool     { return isBlackTag(s) }
+func VerifBlackAttr(s string) int     { return isBlackAttr(s) }
+func VerifBlackURL(s string) bool     { return isBlackURL(s) }
+func VerifDecode(s string) (int, int) { return htmlDecodeByteAt(s) }
+
+// VerifNamed is a (name, attribute type) table entry.
+type VerifNamed struct {
+	Name string
+	Type int
+}
+
+// VerifXSSTables returns copies of blackTags, blacks, blackEvents and the hex map.
+func VerifXSSTables() (tags []string, attrs, events []VerifNamed, hexmap []int) {
+	tags = append(tags, blackTags...)
+	for _, b := range blacks {
+		attrs = append(attrs, VerifNamed{b.name, b.attributeType})
+	}
+	for _, e := range blackEvents {
+		events = append(events, VerifNamed{e.name, e.attributeType})
+	}
+	hexmap = append(hexmap, gsHexDecodeMap...)
+	return
+}
